@@ -423,7 +423,13 @@ fn roundtrip_collect<T: Pixel>(c: &Cfg, px: &[[u16; 3]], tab: &mut BTreeSet<(u8,
         roundtrip_collect::<T>(c, &px[w * h..], tab, bad);
     }
     let px = &px[..w * h];
-    let yuv: Yuv<T> = yuv444::<T>(px, w, h, c).expect("ctor");
+    // plane layouts rotate with the batch: Plane::new tight, tightly packed luma (Plane::from_slice) with padded chroma,
+    // differently padded planes
+    let yuv: Yuv<T> = match (px.len() + usize::from(px[0][1])) % 3 {
+        0 => yuv444::<T>(px, w, h, c).expect("ctor"),
+        1 => Yuv::new(crate::frames::frame_packed_luma::<T>(px, w, h, 0, 0, [(0, 0), (0, 0), (16, 0)]), c.yuv_config()).expect("ctor"),
+        _ => crate::frames::yuv444_padded::<T>(px, w, h, c, [(3, 0), (0, 2), (33, 1)]).expect("ctor"),
+    };
     let rgb = match crate::util::guard(|| Rgb::try_from(&yuv)) {
         Ok(Ok(r)) => r,
         Ok(Err(e)) => {
